@@ -300,6 +300,17 @@ impl Fiber {
   pub fn error_while_handling(&mut self) {
     self.pop_exception_handler();
     self.backtrace_ips.clear();
+
+    // the search for a handler starts over with the new error
+    if let FiberState::Unwinding = self.state {
+      self.state = FiberState::Running;
+    }
+  }
+
+  /// Is this fiber currently searching for a handler, as in running
+  /// the clauses of a catch block
+  pub fn is_unwinding(&self) -> bool {
+    self.state == FiberState::Unwinding
   }
 
   /// pause unwind to search for handler
